@@ -172,7 +172,7 @@ POISONS = (1.5e300, -7.25e-300)
 
 @contextlib.contextmanager
 def poisoned_empty(value):
-    """numpy.empty returns buffers pre-filled with `value` (float dtypes only): uninitialised memory made visible."""
+    """numpy.empty / numpy.empty_like return buffers pre-filled with `value`: uninitialised memory made visible."""
     import numpy
     real = numpy.empty
 
@@ -183,11 +183,22 @@ def poisoned_empty(value):
         elif arr.dtype.kind in "iu":
             arr.fill(-(2 ** 30) + 12345)
         return arr
+    real_like = numpy.empty_like
+
+    def empty_like(proto, *a, **k):
+        arr = real_like(proto, *a, **k)
+        if arr.dtype.kind == "f":
+            arr.fill(value)
+        elif arr.dtype.kind in "iu":
+            arr.fill(-(2 ** 30) + 12345)
+        return arr
     numpy.empty = empty
+    numpy.empty_like = empty_like
     try:
         yield
     finally:
         numpy.empty = real
+        numpy.empty_like = real_like
 
 
 # --------------------------------------------------------------------------- unusual but legal spellings of the input path
